@@ -649,6 +649,7 @@ class C05(ThreadCheck):
 
 
 class C14(ThreadCheck):
+    caps = [2, 3, 6]
     lean_module = 'CppUtil.Props.C14'
     theorems = ['CppUtil.Props.c14_all_exited_all_free', 'CppUtil.Props.c14_flag_has_holder', 'CppUtil.Props.c14_solo_claim_succeeds', 'CppUtil.Props.c14_release_clears']
     categories = ['idleak']
